@@ -100,6 +100,180 @@ impl Prop for Forwarding {
     }
 }
 
+// ------------------------------------------------------------ bases that share a short name (L3)
+
+/// The forwarding programs, every one with two types of different modules under one short name.
+pub struct SameShortNames;
+
+impl Prop for SameShortNames {
+    type Case = Case;
+    crate::prog_shrink!();
+    fn name(&self) -> String {
+        "C07/same-short-names".into()
+    }
+    fn rule(&self) -> String {
+        "the C07/forwarding programs, in every one of which two struct types of different modules are given one short name (half of the time two types that are direct or transitive bases of one derived type, when there are such). Same driver and oracle as C07/forwarding: re-exposed functions land in the right stub with the right receiver, AsRef/AsMut exist for every base type occurring once (types are told apart by their full path) and for no type occurring twice. Non-trivial as there".into()
+    }
+    fn gen(&self, t: &mut Tape) -> Case {
+        let mut cfg = l3_cfg(t);
+        cfg.base_num = 2;
+        cfg.vft_num = 2;
+        cfg.impls = true;
+        cfg.enums = false;
+        cfg.ext_vals = false;
+        cfg.singletons = false;
+        cfg.max_fields = 3;
+        cfg.extern_bases = true;
+        cfg.externs = true;
+        cfg.alias_types = 1;
+        let (prog, _, _) = gen_prog(t, cfg);
+        Case { prog, seed: t.u64() }
+    }
+    fn judge(&self, c: &Case) -> Outcome {
+        let mut names: Vec<&String> = c.prog.mods.iter().flat_map(|m| m.types().map(|t| &t.name)).collect();
+        names.sort();
+        let shared = names.windows(2).any(|w| w[0] == w[1]);
+        let o = Forwarding.judge(c);
+        if shared {
+            o.class("two-types-one-short-name")
+        } else {
+            o
+        }
+    }
+    fn show(&self, c: &Case) -> Value {
+        show_case(c)
+    }
+}
+
+// ------------------------------------------------------------ two base types called the same (L3)
+
+/// `Bottom` derives from `l::Left` and `r::Right`, which derive (directly or through one more level) from
+/// `a::Node` and `b::Node`: two different types with one short name, each occurring once below `Bottom`.
+pub struct SameNameBases;
+
+fn same_name_case(t: &mut Tape) -> Case {
+    let mut next_addr = 0x1000_0000u64;
+    let same_fn_name = t.chance(1, 2);
+    let mut node_mod = |t: &mut Tape, modname: &str, k: u64| -> Mod {
+        let fields = (0..1 + t.below(3)).map(|i| Field::new(&format!("n{k}_{i}"), Ty::n("u64"))).collect();
+        let mut m = Mod {
+            path: vec![modname.to_string()],
+            items: vec![Item::Type(TypeDef {
+                vis: true,
+                name: "Node".into(),
+                fields,
+                ..Default::default()
+            })],
+            ..Default::default()
+        };
+        if t.chance(2, 3) {
+            next_addr += 0x1000;
+            m.impls.push(Impl {
+                more: vec![],
+                ty: "Node".into(),
+                funcs: vec![Func {
+                    sty: 0,
+                    more: vec![],
+                    vis: true,
+                    name: if same_fn_name { "touch".into() } else { format!("touch{k}") },
+                    doc: vec![],
+                    args: vec![if t.chance(1, 2) { Arg::ConstSelf } else { Arg::MutSelf }, Arg::Named("x".into(), Ty::n("u32"))],
+                    ret: if t.chance(1, 2) { Some(Ty::n("u32")) } else { None },
+                    addr: Some(Num::d(next_addr as i128)),
+                    index: None,
+                    cc: None,
+                }],
+            });
+        }
+        m
+    };
+    let a = node_mod(t, "a", 0);
+    let b = node_mod(t, "b", 1);
+    // a side: module `side` imports `from::Node` by name and derives `name` from it, sometimes through one more level
+    let side = |t: &mut Tape, side: &str, from: &str, name: &str| -> Mod {
+        let mut m = Mod {
+            path: vec![side.to_string()],
+            uses: vec![vec![from.to_string(), "Node".to_string()]],
+            ..Default::default()
+        };
+        let mut base_ty = "Node".to_string();
+        if t.chance(1, 3) {
+            let mut bf = Field::new("node", Ty::n("Node"));
+            bf.base = true;
+            m.items.push(Item::Type(TypeDef {
+                vis: true,
+                name: format!("Mid{name}"),
+                fields: vec![bf, Field::new("mid_own", Ty::n("u64"))],
+                ..Default::default()
+            }));
+            base_ty = format!("Mid{name}");
+        }
+        let mut fields = vec![];
+        if t.chance(1, 3) {
+            fields.push(Field::new("pre", Ty::n("u64")));
+        }
+        let mut bf = Field::new(if base_ty == "Node" { "node" } else { "mid" }, Ty::n(&base_ty));
+        bf.base = true;
+        fields.push(bf);
+        for i in 0..t.below(2) {
+            fields.push(Field::new(&format!("own{i}"), Ty::n("u64")));
+        }
+        m.items.push(Item::Type(TypeDef {
+            vis: true,
+            name: name.to_string(),
+            fields,
+            ..Default::default()
+        }));
+        m
+    };
+    let l = side(t, "l", "a", "Left");
+    let r = side(t, "r", "b", "Right");
+    let mut lf = Field::new("left", Ty::n("Left"));
+    lf.base = true;
+    let mut rf = Field::new("right", Ty::n("Right"));
+    rf.base = true;
+    let mut fields = if t.chance(1, 2) { vec![lf, rf] } else { vec![rf, lf] };
+    if t.chance(1, 2) {
+        fields.push(Field::new("bottom_own", Ty::n("u64")));
+    }
+    let bottom = Mod {
+        path: vec!["m".into()],
+        uses: vec![vec!["l".into(), "Left".into()], vec!["r".into(), "Right".into()]],
+        items: vec![Item::Type(TypeDef {
+            vis: true,
+            name: "Bottom".into(),
+            fields,
+            ..Default::default()
+        })],
+        ..Default::default()
+    };
+    let mut mods = vec![a, b, l, r, bottom];
+    // the order in which the modules are handed over
+    let k = t.below(mods.len() as u64) as usize;
+    mods.rotate_left(k);
+    Case { prog: Prog { mods }, seed: t.u64() }
+}
+
+impl Prop for SameNameBases {
+    type Case = Case;
+    crate::prog_shrink!();
+    fn name(&self) -> String {
+        "C07/same-name-bases".into()
+    }
+    fn rule(&self) -> String {
+        "five modules: a::Node and b::Node (two different types with one short name, each with 1-3 members and usually an address-bound public function, half of the time under the same name), l::Left and r::Right deriving from them by name import, directly or through one more level, with or without a member in front of the base, and m::Bottom deriving from Left and Right in either order. Same driver and oracle as C07/forwarding: every function re-exposed on Left, Right and Bottom (renamed <field>_<name> where two bases bring the same name) lands in its stub with the sub-object as receiver, and AsRef/AsMut from Bottom to a::Node and to b::Node both exist and land at the right offsets (each type occurs once). Every case is non-trivial".into()
+    }
+    fn gen(&self, t: &mut Tape) -> Case {
+        same_name_case(t)
+    }
+    fn judge(&self, c: &Case) -> Outcome {
+        Forwarding.judge(c)
+    }
+    fn show(&self, c: &Case) -> Value {
+        show_case(c)
+    }
+}
+
 // ------------------------------------------------------------ presence and signature (L1)
 
 pub struct SurfacePresence;
@@ -187,11 +361,13 @@ impl Prop for SurfacePresence {
 }
 
 pub fn props() -> Vec<Box<dyn DynProp>> {
-    vec![Box::new(SurfacePresence), Box::new(Forwarding)]
+    vec![Box::new(SurfacePresence), Box::new(Forwarding), Box::new(SameShortNames), Box::new(SameNameBases)]
 }
 
 pub fn run(ctx: &mut Ctx) {
     let q = ctx.quick();
     ctx.run(&SurfacePresence, &Params::new(if q { 8000 } else { 300_000 }, 100, 2500).shrink(300));
     ctx.run(&Forwarding, &Params::new(if q { 1500 } else { 50_000 }, 200, 3000).shrink(60));
+    ctx.run(&SameShortNames, &Params::new(if q { 400 } else { 10_000 }, 200, 3000).shrink(60));
+    ctx.run(&SameNameBases, &Params::new(if q { 200 } else { 5_000 }, 30, 200).shrink(60));
 }
